@@ -80,6 +80,14 @@ theorem foldl_snocRow_empty {γ : Type} (n : Nat) (rows : List (List γ)) (hr : 
 
 /-! ### lists, indices -/
 
+theorem ite_ok {ε β : Type} (c : Prop) [Decidable c] (a b : β) :
+    (if c then (Except.ok a : Except ε β) else Except.ok b) = Except.ok (if c then a else b) := by
+  split <;> rfl
+
+theorem contains_pattern (l : List Char) : contains ['p', 'a', 't', 't', 'e', 'r', 'n'] l = hasSub patKw l := rfl
+theorem contains_occurrence (l : List Char) :
+    contains ['o', 'c', 'c', 'u', 'r', 'r', 'e', 'n', 'c', 'e'] l = hasSub occKw l := rfl
+
 @[simp] theorem len_eq {β : Type} (xs : List β) : len xs = (xs.length : Int) := rfl
 
 theorem emptyLists_len {β : Type} (xs : List β) {γ : Type} :
